@@ -63,4 +63,22 @@ CLAIMS = {
                  "min, max, mean, variance, std (and the median after unweighted construction) are compared with math.fsum over the ledger; operations that cannot "
                  "maintain statistics must leave NaN. Exploration."),
     },
+    "C09": {
+        "technique": "per-call projection monitor against an explicit loop marginal + chain / direct-construction / T / accumulate identities",
+        "text": ("Every observed projection is compared with a marginal recomputed by an explicit loop over all cells (contents, errors2, bins and names of the kept "
+                 "axes in original order, total, class), with the histogram built directly from the kept columns and with stepwise projection; T, T.T, accumulate and "
+                 "the mandated refusals are checked on 2-4D histograms with asymmetric shapes and weighted contents. Exploration."),
+    },
+    "C10": {
+        "technique": "per-call merge_bins monitor: new bins must be unions of runs of adjacent old bins with summed contents; refusals and in-place atomicity",
+        "text": ("Every observed merge_bins (all amounts 1..n+3, min_frequency thresholds, each axis / all axes, in place / copying, irregular and gapped bins incl. gaps "
+                 "far below the edge magnitude) is checked: run structure, run sums of contents and errors2, untouched axes / totals / missed / source; gaps and "
+                 "non-integral or non-positive amounts must be refused without changing anything. Exploration."),
+    },
+    "C11": {
+        "technique": "per-call indexing monitor whose oracle is numpy indexing of the source arrays; complete enumeration of the 1D slice space for <= 6 bins",
+        "text": ("All slices (start, stop in -n-1..n+1, step None/1/2/-1) for 1..6 bins are enumerated completely; ints, masks, index arrays, ND tuples and select are "
+                 "sampled on 1-4D histograms; bins / contents / errors2 must equal the numpy-indexed source arrays, contiguous slices conserve total+under+overflow, "
+                 "dropped axes drop their names, invalid expressions are refused, the source is untouched, the selection's edge representations agree. Exploration."),
+    },
 }
